@@ -136,10 +136,15 @@ pub fn toks(n: usize, v0: u8) -> Vec<Tok> {
 }
 
 /// An owned array of tokens: cell i (row-major) has id == val == i. Resets the ledger first.
+/// When non-zero, `owned_tok` allocates exactly this capacity (a buffer much larger than its contents:
+/// the regime in which shrink / regrow heuristics would fire).
+pub static mut CAP_OVERRIDE: usize = 0;
+
 pub fn owned_tok(c: usize, r: usize, spare: bool) -> TooDee<Tok> {
     reset();
     let n = c * r;
-    let mut v = Vec::with_capacity(if spare { n + c + r + 1 } else { n });
+    let cap = unsafe { CAP_OVERRIDE };
+    let mut v = Vec::with_capacity(if cap > 0 { cap } else if spare { n + c + r + 1 } else { n });
     let mut i = 0;
     while i < n {
         v.push(tok(i as u8));
